@@ -147,12 +147,16 @@ REG.update({
     },
     "C16": {
         "level": "exploration",
-        "tests": [{"pkg": "./chainsim", "run": "TestC16", "quick": 400, "thorough": 30000, "chunk": 25}],
-        "rule": S5_RULE + ("Oracle after every head change: (state-scope) none of the addresses the run could have touched that are outside zone 0-0's Quai ledger - the Qi-ledger conversion recipients and coinbases, and foreign-zone twins of the funded accounts - exists as an account in the state at the header's roots; "
+        "tests": [{"pkg": "./chainsim", "run": "TestC16", "quick": 400, "thorough": 30000, "chunk": 25},
+                  {"pkg": "./evmsim", "run": "TestC16", "quick": 1600, "thorough": 150000, "chunk": 100}],
+        "rule": S5_RULE + ("Once per run (address-classification): a table of boundary addresses (zone byte x ledger bit x tail) x six node locations through BytesToAddress, Bytes20ToAddress, HexToAddress, ProtoDecode and the mixed-case string path: internal exactly when the first byte is the location's prefix, ledger exactly the high bit of the second byte, bytes preserved. "
+                 "EVM half (evmsim TestC16): generated contract programs (S3 harness) weighted towards CREATE/CREATE2 (salts ground for in-zone Quai addresses, arbitrary salts, and salts ground for in-zone Qi-ledger addresses), value transfers, external calls and self-destructs aimed at Qi and foreign-zone addresses, with out-of-gas cuts and injected frame failures; "
+                 "oracle (creation-scope): a creation that reports success reports an in-zone Quai address that equals the CREATE2 derivation, a CREATE2 towards an out-of-scope address fails and leaves no account; (state-scope) after every transaction none of the out-of-scope addresses the run pointed at exists in the state. "
+                 "Oracle after every head change: (state-scope) none of the addresses the run could have touched that are outside zone 0-0's Quai ledger - the Qi-ledger conversion recipients and coinbases, and foreign-zone twins of the funded accounts - exists as an account in the state at the header's roots; "
                  "(utxo-scope) every stored UTXO is owned by an in-zone Qi-ledger address."),
         "expect_probes": ["reorg"],
         "components": S5_COMPONENTS,
-        "assumptions": ["agreement of all address constructors/decoders on all 2^160 addresses is a pure-function claim and is not decided", "CREATE/CREATE2 address scoping is not yet exercised in this harness (no contract deployment op)",
+        "assumptions": ["agreement of constructors/decoders is decided on a boundary table, not on all 2^160 addresses; Address.UnmarshalJSON / DecodeRLP classify against a fixed location by design of the type and are not in the table",
                         "membership is probed for candidate addresses (the state trie is keyed by hashes; preimages are not recorded)"],
     },
     "C01": {
